@@ -93,6 +93,15 @@ static void run(const Spec & sp, uint64_t seed, long n_iid, int n_grid, bool hos
       x.detail = detail;
     }
   };
+  // the tables of the sampler are indexed by energy in keV up to int(e0*1000): the kinematic limit the initialisation has just computed
+  // must fit their fixed capacity (the arrays sit inside one object, where neither red zones nor valgrind see an overrun)
+  std::map<std::string, Mismatch> memory;
+  if (sp.kind != 'B') {
+    const bxdecay0::bbpars & bp = gen.get_bb_params();
+    if (std::isfinite(bp.e0) && bp.e0 > 0 && bp.e0 < 1e6 && (long)(bp.e0 * 1000.) > (long)bxdecay0::bbpars::SPSIZE)
+      rec_simple(memory, lab + "|spectrum-table-capacity",
+                 fmt("after initialisation e0 = %.6f MeV: the sampler indexes spthe1/spthe2 up to element %ld, the arrays hold %u", bp.e0, (long)(bp.e0 * 1000.), (unsigned)bxdecay0::bbpars::SPSIZE));
+  }
   uint64_t last_sig = 0;
   auto one = [&](const std::string & steer) -> size_t {
     last_sig = 0;
@@ -247,6 +256,8 @@ static void run(const Spec & sp, uint64_t seed, long n_iid, int n_grid, bool hos
   emit_mismatches(OUT, "wellformed", st.wf);
   fprintf(OUT, ",");
   emit_mismatches(OUT, "budget", budget);
+  fprintf(OUT, ",");
+  emit_mismatches(OUT, "memory", memory);
   fprintf(OUT, "}\n");
   fflush(OUT);
 }
